@@ -269,7 +269,7 @@ func TestC34(t *testing.T) {
 	c34T = gpNewTally(r)
 	defer c34T.Flush()
 	r.Rule("cases cycle through: duration round-trip, duration strings with a big-rational reference (in range → exact value, out of range → error), size round-trip for SizeV1/SSizeV1 (MarshalText) and SizeV2/SSizeV2 = active toml.Size/toml.SSize (raw integer as written by the TOML encoder; every 8th case through the real BurntSushi encoder+decoder), suffix strings 'mantissa[ ]suffix' against the documented multiplier table with math/big, and strings whose exact value exceeds the target type; values are powers of two ±2, decimal round numbers, unit multiples near the top of the range, 2^53+odd, random widths; non-trivial = value ∉ {0,1} / string has a suffix or ≥ 10 digits; distinct = hash of (kind, type, value or string)")
-	n := r.N(120000, 6000000)
+	n := r.N(400000, 10000000)
 	types := c34Types()
 	r.Extra("active_alias", "toml.Size = SizeV2, toml.SSize = SSizeV2 (toml/size_alias.go)")
 	for i := 0; i < n; i++ {
